@@ -168,6 +168,16 @@ func C02(job *Job, r *Report) {
 		}
 		x.Explore(r, job)
 	}
+	// part (b): schedules of shutdown vs asynchronous flush / flusher / dumper
+	pb := 2
+	if job.Tier != "quick" {
+		pb = 3
+	}
+	if job.Part == "" || job.Part == "b" {
+		runScenarios(&Job{Check: job.Check, Tier: job.Tier, Shard: job.Shard, NShards: job.NShards, Seed: job.Seed}, r, c02bScenarios(), []int{pb}, -1)
+		r.Extra["part_b"] = map[string]interface{}{"scenarios": []string{"B1-rotate-close-exit", "B2-rotate-close-exit-flusher", "B3-rotate-close-exit-flusher-dumper", "B4-two-rotations-close-exit-flusher"}, "preemption_bound": pb,
+			"rule": "writer fills a file, the next set rotates (spawning the asynchronous flush of the previous file), then Close, then process exit (all other goroutines abandoned where they are); optional periodic flusher and hint dumper threads; every interleaving up to the preemption bound; after exit the store is reopened and every acknowledged write must be readable"}
+	}
 	r.Count("reopen_forks", c02Stats.forks)
 	r.Count("fork_cache_hits", c02Stats.cacheHits)
 	r.Count("subset_cap_hits", c02Stats.capped)
